@@ -542,4 +542,264 @@ theorem newNamed_ok (fvs : List (Field × GoVal)) (hn : (fvs.map (·.1.name)).No
     simpa using field_rt r32 hr (hf fv hfv)
 
 end
+/-! ### exactness: the exclusions are necessary (converses) -/
+
+theorem mapOpt_map_inv {α β : Type} (f : α → Option β) (g : β → α) :
+    ∀ l : List β, mapOpt f (l.map g) = some l → ∀ x ∈ l, f (g x) = some x
+  | [], _ => by simp
+  | x :: l, h => by
+      simp only [List.map_cons, mapOpt] at h
+      cases h1 : f (g x) with
+      | none => simp [h1] at h
+      | some b =>
+        cases h2 : mapOpt f (l.map g) with
+        | none => simp [h1, h2] at h
+        | some bs =>
+          simp [h1, h2] at h
+          obtain ⟨rfl, rfl⟩ := h
+          intro y hy
+          rcases List.mem_cons.mp hy with rfl | hy'
+          · exact h1
+          · exact mapOpt_map_inv f g _ h2 y hy'
+
+theorem scalar_RtOK {t : GoTy} (ht : scalarTy t = true) (via : Bool) (v : GoVal) : RtOK via t v = true := by
+  cases t <;> simp [scalarTy] at ht <;> cases v <;> simp [RtOK]
+
+theorem sortedKeys_congr : ∀ (l l' : List (GoVal × GoVal)), l.map (·.1) = l'.map (·.1) → sortedKeys l = sortedKeys l'
+  | [], [], _ => rfl
+  | [], _ :: _, h => by simp at h
+  | _ :: _, [], h => by simp at h
+  | [a], [b], _ => rfl
+  | [a], _ :: _ :: _, h => by simp at h
+  | _ :: _ :: _, [b], h => by simp at h
+  | a :: b :: r, a' :: b' :: r', h => by
+      simp only [List.map_cons, List.cons.injEq] at h
+      have ih := sortedKeys_congr (b :: r) (b' :: r') (by simp [h.2.1, h.2.2])
+      simp only [sortedKeys, h.1, h.2.1, ih]
+
+section
+variable (r32 : Nat → Nat) (hr : ∀ b, f32exact b = true → r32 b = b)
+include hr
+
+/-- keys always come back (their types are scalars), so the entry list rebuilt from `es.map W` has the keys of `es` -/
+theorem entries_keys (k v : GoTy) (hk : keyTy k = true) : ∀ (es l₂ : List (GoVal × GoVal)),
+    (∀ e ∈ es, hasType k e.1 = true) →
+    mapOpt (fun kv : Val × Val => pairOpt (reflectTo r32 k kv.1) (reflectTo r32 v kv.2))
+      (es.map fun kv => (wrap true k kv.1, wrap true v kv.2)) = some l₂ →
+    l₂.map (·.1) = es.map (·.1)
+  | [], l₂, _, h => by simp [mapOpt] at h; subst h; rfl
+  | e :: es, l₂, ht, h => by
+      simp only [List.map_cons, mapOpt] at h
+      have hkm : Modelled k = true := by cases k <;> simp_all [keyTy, Modelled]
+      have hkey := rt_main r32 hr k true e.1 hkm (ht e (by simp)) (keyTy_RtOK hk _ _)
+      rw [hkey] at h
+      cases h2 : reflectTo r32 v (wrap true v e.2) with
+      | none => rw [h2] at h; simp [pairOpt] at h
+      | some b =>
+        rw [h2] at h
+        cases h3 : mapOpt (fun kv : Val × Val => pairOpt (reflectTo r32 k kv.1) (reflectTo r32 v kv.2))
+            (es.map fun kv => (wrap true k kv.1, wrap true v kv.2)) with
+        | none => rw [h3] at h; simp [pairOpt] at h
+        | some bs =>
+          rw [h3] at h
+          simp [pairOpt] at h
+          subst h
+          have ih := entries_keys k v hk es bs (fun e' he' => ht e' (by simp [he'])) h3
+          simp [ih]
+
+theorem rt_conv : ∀ (ty : GoTy) (via : Bool) (v : GoVal), Modelled ty = true → hasType ty v = true →
+    reflectTo r32 ty (wrap via ty v) = some v → RtOK via ty v = true := by
+  intro ty
+  induction ty with
+  | int w => intro via v hm _ _; exact scalar_RtOK (by simpa [Modelled, scalarTy] using hm) _ _
+  | uint w => intro via v hm _ _; exact scalar_RtOK (by simpa [Modelled, scalarTy] using hm) _ _
+  | float w => intro via v hm _ _; exact scalar_RtOK (by simpa [Modelled, scalarTy] using hm) _ _
+  | string => intro via v _ _ _; exact scalar_RtOK rfl _ _
+  | bool => intro via v _ _ _; exact scalar_RtOK rfl _ _
+  | iface =>
+      intro via v _ hv h
+      cases v <;> simp [hasType] at hv
+      · simp [RtOK]
+      · rename_i t x
+        cases t <;> simp [scalarTy] at hv <;> cases x <;> simp [scalarHasType] at hv <;>
+          simp [wrap, wrapScalar, reflectTo] at h <;> simp [RtOK, h]
+  | slice e ih =>
+      intro via v hm hv h
+      cases v <;> simp [hasType] at hv
+      · by_cases hs : via = true ∧ nilToEmptySlice e = true
+        · obtain ⟨rfl, hn⟩ := hs
+          have h8 : e ≠ .uint 8 := by rintro rfl; simp [nilToEmptySlice] at hn
+          simp [wrap, h8, hn, reflectTo, mapOpt] at h
+        · cases via <;> simp_all [RtOK]
+      · rename_i es
+        simp only [RtOK, List.all_eq_true]
+        by_cases h8 : via = true ∧ e = .uint 8
+        · obtain ⟨rfl, rfl⟩ := h8
+          intro x _; exact scalar_RtOK rfl _ _
+        · have hw : wrap via (.slice e) (.slice es) = .arr (es.map (wrap true e)) := by
+            cases via <;> simp_all [wrap]
+          rw [hw] at h
+          simp only [reflectTo] at h
+          cases hmo : mapOpt (reflectTo r32 e) (es.map (wrap true e)) with
+          | none => simp [hmo] at h
+          | some l =>
+            simp [hmo] at h
+            subst h
+            intro x hx
+            exact ih true x (by simpa [Modelled] using hm) (hv x hx) (mapOpt_map_inv _ _ _ hmo x hx)
+  | array n e ih =>
+      intro via v hm hv h
+      cases v <;> simp [hasType] at hv
+      rename_i es
+      simp only [RtOK, List.all_eq_true]
+      simp only [wrap, reflectTo, List.length_map, hv.1, if_true] at h
+      cases hmo : mapOpt (reflectTo r32 e) (es.map (wrap true e)) with
+      | none => simp [hmo] at h
+      | some l =>
+        simp [hmo] at h
+        subst h
+        intro x hx
+        exact ih true x (by simpa [Modelled] using hm) (hv.2 x hx) (mapOpt_map_inv _ _ _ hmo x hx)
+  | map k v ihk ihv =>
+      intro via x hm hv h
+      simp [Modelled] at hm
+      cases x <;> simp [hasType] at hv
+      · by_cases hs : via = true ∧ nilToEmptyMap k v = true
+        · obtain ⟨rfl, hn⟩ := hs
+          simp [wrap, hn, reflectTo, mapOpt] at h
+        · cases via <;> simp_all [RtOK]
+      · rename_i es
+        simp only [RtOK, List.all_eq_true]
+        simp only [wrap, reflectTo] at h
+        cases hS : mapOpt (fun kv : Val × Val => pairOpt (reflectTo r32 k kv.1) (reflectTo r32 v kv.2))
+            (sortEntries (es.map fun kv => (wrap true k kv.1, wrap true v kv.2))) with
+        | none => simp [hS] at h
+        | some l₁ =>
+          simp [hS] at h
+          -- the same entries in the original order
+          obtain ⟨l₂, h2, p2⟩ := mapOpt_perm _ (sortEntries_perm (es.map fun kv => (wrap true k kv.1, wrap true v kv.2))).symm l₁ hS
+          have hkeys := entries_keys r32 hr k v hm.1 es l₂ (fun e he => (hv.1 e.1 e.2 he).1) h2
+          have hsort : sortedKeys l₂ = true := by rw [sortedKeys_congr l₂ es hkeys]; exact hv.2
+          have : mapOf l₁ = l₂ := mapOf_perm_sorted p2.symm hsort
+          rw [this] at h
+          subst h
+          intro e he
+          have hpt := mapOpt_map_inv _ _ _ h2 e he
+          simp only at hpt
+          cases hb : reflectTo r32 v (wrap true v e.2) with
+          | none => simp [hb, pairOpt] at hpt
+          | some b =>
+            cases h1 : reflectTo r32 k (wrap true k e.1) with
+            | none => simp [h1, pairOpt] at hpt
+            | some a =>
+              simp [h1, hb, pairOpt] at hpt
+              have : b = e.2 := by rw [← hpt]
+              exact ihv true e.2 hm.2 (hv.1 e.1 e.2 he).2 (by rw [hb, this])
+  | ptr e ih =>
+      intro via v hm hv h
+      cases v <;> simp [hasType] at hv
+      · simp [RtOK]
+      · rename_i x
+        have hme : Modelled e = true := by simp [Modelled] at hm; exact hm.2
+        by_cases hx : x = .nil
+        · subst hx
+          cases e <;> simp [hasType, scalarHasType, Modelled] at hv hm <;> simp [wrap, reflectTo] at h
+        · obtain ⟨s1, s2⟩ := wrap_false_shape hm hv hx
+          simp only [wrap] at h
+          rw [reflectTo_ptr r32 hm s1 s2] at h
+          cases hb : reflectTo r32 e (wrap false e x) with
+          | none => simp [hb] at h
+          | some b =>
+            simp [hb] at h
+            subst h
+            have := ih false b hme hv hb
+            cases b <;> simp_all [RtOK]
+end
+
+theorem inst_opt_of_ne {t : Ty} {w : Val} (h : w ≠ .undef) : inst (.opt t) w = inst t w := by
+  cases w <;> simp_all [inst]
+
+theorem scalar_ta_conv {t : GoTy} {v : GoVal} (ht : scalarTy t = true) (hv : scalarHasType t v = true) (via : Bool)
+    (h : inst (typeOf t) (wrapScalar t v) = true) : TaOK via t v = true := by
+  cases t <;> simp [scalarTy] at ht <;> cases v <;> simp [scalarHasType] at hv <;> simp [TaOK]
+  · -- uint
+    rcases okWidth_cases ht with rfl | rfl | rfl | rfl | rfl <;>
+      simp [bitsOf, maxI64, u2i, inst, wrapScalar, typeOf] at hv h ⊢ <;> (try split at h) <;> omega
+  · -- float
+    rcases ht with rfl | rfl
+    · simp [wrapScalar, typeOf, inst, maxF32] at h
+      simp only [finite, fExp, bne_iff_ne, ne_eq]
+      simp only [Nat.reducePow] at h ⊢
+      have h' := of_decide_eq_true h
+      omega
+    · simpa [wrapScalar, typeOf, inst] using h
+
+theorem ta_conv : ∀ (ty : GoTy) (via : Bool) (v : GoVal), Modelled ty = true → hasType ty v = true →
+    inst (typeOf ty) (wrap via ty v) = true → TaOK via ty v = true := by
+  intro ty
+  induction ty with
+  | int w => intro via v hm hv h; exact scalar_ta_conv (t := .int w) (by simpa [Modelled, scalarTy] using hm) (by simpa [hasType] using hv) via (by simpa [wrap] using h)
+  | uint w => intro via v hm hv h; exact scalar_ta_conv (t := .uint w) (by simpa [Modelled, scalarTy] using hm) (by simpa [hasType] using hv) via (by simpa [wrap] using h)
+  | float w => intro via v hm hv h; exact scalar_ta_conv (t := .float w) (by simpa [Modelled, scalarTy] using hm) (by simpa [hasType] using hv) via (by simpa [wrap] using h)
+  | string => intro via v _ hv h; exact scalar_ta_conv (t := .string) rfl (by simpa [hasType] using hv) via (by simpa [wrap] using h)
+  | bool => intro via v _ hv h; exact scalar_ta_conv (t := .bool) rfl (by simpa [hasType] using hv) via (by simpa [wrap] using h)
+  | iface => intro via v _ _ _; cases v <;> simp [TaOK]
+  | slice e ih =>
+      intro via v hm hv h
+      cases v <;> simp [hasType] at hv
+      · by_cases h8 : via = true ∧ e = .uint 8
+        · obtain ⟨rfl, rfl⟩ := h8; simp [wrap, typeOf, inst] at h
+        · by_cases hs : via = true ∧ nilToEmptySlice e = true
+          · simp [TaOK, hs.1, hs.2]
+          · have : wrap via (.slice e) .nil = .undef := by cases via <;> simp_all [wrap]
+            rw [this] at h; simp [typeOf, inst] at h
+      · rename_i es
+        by_cases h8 : via = true ∧ e = .uint 8
+        · obtain ⟨rfl, rfl⟩ := h8; simp [wrap, typeOf, inst] at h
+        · have hw : wrap via (.slice e) (.slice es) = .arr (es.map (wrap true e)) := by
+            cases via <;> simp_all [wrap]
+          rw [hw] at h
+          simp only [typeOf, inst, List.all_map, List.all_eq_true, Function.comp] at h
+          have h8' : (via && decide (e = .uint 8)) = false := by cases via <;> simp_all
+          simp only [TaOK, h8', Bool.not_false, Bool.true_and, List.all_eq_true]
+          intro x hx
+          exact ih true x (by simpa [Modelled] using hm) (hv x hx) (h x hx)
+  | array n e ih =>
+      intro via v hm hv h
+      cases v <;> simp [hasType] at hv
+      rename_i es
+      simp only [wrap, typeOf, inst, List.all_map, List.all_eq_true, Function.comp] at h
+      simp only [TaOK, List.all_eq_true]
+      intro x hx
+      exact ih true x (by simpa [Modelled] using hm) (hv.2 x hx) (h x hx)
+  | map k v ihk ihv =>
+      intro via x hm hv h
+      simp [Modelled] at hm
+      have hk : Modelled k = true := by cases k <;> simp_all [keyTy, Modelled]
+      cases x <;> simp [hasType] at hv
+      · by_cases hs : via = true ∧ nilToEmptyMap k v = true
+        · simp [TaOK, hs.1, hs.2]
+        · have : wrap via (.map k v) .nil = .undef := by cases via <;> simp_all [wrap]
+          rw [this] at h; simp [typeOf, inst] at h
+      · rename_i es
+        simp only [wrap, typeOf, inst, List.all_eq_true] at h
+        simp only [TaOK, List.all_eq_true, Bool.and_eq_true]
+        intro e he
+        have := h (wrap true k e.1, wrap true v e.2) (mem_sortEntries.mpr (List.mem_map.mpr ⟨e, he, rfl⟩))
+        simp only [Bool.and_eq_true] at this
+        exact ⟨ihk true e.1 hk (hv.1 e.1 e.2 he).1 this.1, ihv true e.2 hm.2 (hv.1 e.1 e.2 he).2 this.2⟩
+  | ptr e ih =>
+      intro via v hm hv h
+      cases v <;> simp [hasType] at hv
+      · simp [TaOK]
+      · rename_i x
+        have hme : Modelled e = true := by simp [Modelled] at hm; exact hm.2
+        by_cases hx : x = .nil
+        · subst hx; simp [TaOK]
+        · obtain ⟨s1, _⟩ := wrap_false_shape hm hv hx
+          simp only [wrap, typeOf] at h
+          rw [inst_opt_of_ne s1] at h
+          have := ih false x hme hv h
+          cases x <;> simp_all [TaOK]
+
 end Pcore.Reflect
